@@ -25,6 +25,18 @@ pub struct GCase {
     /// feed the input paths through --stdin (one per line) instead of as arguments
     #[serde(default)]
     pub stdin: bool,
+    /// two freshly mounted tmpfs file systems below the first root hold pairs of files with equal inode
+    /// numbers (on different devices), equal lengths and different bytes
+    #[serde(default)]
+    pub twin_fs: bool,
+    /// run as if by a user who does not own the files: every open with O_NOATIME fails with EPERM
+    /// (interposer), the files themselves stay readable
+    #[serde(default)]
+    pub noatime_eperm: bool,
+    /// the second root lives on another file system (ext4 below /var/tmp while the rest of the tree is
+    /// on tmpfs): devices of different kinds in one run; never together with a pinned disk kind
+    #[serde(default)]
+    pub split_fs: bool,
 }
 
 #[derive(Clone, Copy, PartialEq, Eq, Debug)]
@@ -72,8 +84,14 @@ pub fn case_strategy(which: Which) -> BoxedStrategy<GCase> {
                 prop::bool::weighted(0.15),
                 prop::bool::weighted(0.3),
                 prop::bool::weighted(0.2),
+                prop::bool::weighted(0.1),
+                (prop::bool::weighted(0.1), prop::bool::weighted(0.15)),
             )
-                .prop_map(move |(tree, mut opts, extra, ext4, text, stdin)| {
+                .prop_map(move |(tree, mut opts, extra, ext4, text, stdin, twin_fs, (noatime_eperm, split_fs))| {
+                    let split_fs = split_fs && roots >= 2 && !ext4;
+                    if split_fs {
+                        opts.disk = 0; // the detected kinds must differ between the two file systems
+                    }
                     if which == Which::C03 {
                         // -H changes counting only (C06's business); keep the simple rule here
                         opts.match_links = false;
@@ -81,7 +99,7 @@ pub fn case_strategy(which: Which) -> BoxedStrategy<GCase> {
                     if opts.match_links && opts.symbolic_links {
                         // documented-dangerous combination, still legal for group: keep
                     }
-                    GCase { tree, roots, extra_roots: extra.unwrap_or_default(), opts, ext4, text, stdin }
+                    GCase { tree, roots, extra_roots: extra.unwrap_or_default(), opts, ext4, text, stdin, twin_fs, noatime_eperm, split_fs }
                 })
         })
         .boxed()
@@ -127,6 +145,33 @@ pub fn run_case(which: Which, c: &GCase, n: u64) -> Verdict {
     let cd = CaseDir::new(if which == Which::C01 { "c01" } else { "c03" }, n, if c.ext4 { Fs::Ext4 } else { Fs::Tmpfs });
     let built = c.tree.build(&cd.tree());
     let _ = built;
+    let mut twin_pairs = 0;
+    let _twins = if c.twin_fs {
+        use std::os::unix::fs::MetadataExt;
+        let r0 = cd.tree().join(ROOT_NAMES[0]);
+        let g = mount_twins(&r0.join("twA"), &r0.join("twB"));
+        if g.0.len() == 2 {
+            for (i, size) in [4096usize, 16384, 70000, 5].iter().enumerate() {
+                let a = g.0[0].join(format!("t{}", i));
+                let b = g.0[1].join(format!("t{}", i));
+                let bytes = class_bytes(900 + i as u32, *size);
+                let mut other = bytes.clone();
+                other[*size / 2] = other[*size / 2].wrapping_add(1);
+                let _ = std::fs::write(&a, &bytes);
+                let _ = std::fs::write(&b, &other);
+                set_times(&a, BASE_TIME + 5, 0, BASE_TIME);
+                set_times(&b, BASE_TIME + 5, 0, BASE_TIME);
+                if let (Ok(ma), Ok(mb)) = (std::fs::metadata(&a), std::fs::metadata(&b)) {
+                    if ma.ino() == mb.ino() && ma.dev() != mb.dev() {
+                        twin_pairs += 1;
+                    }
+                }
+            }
+        }
+        Some(g)
+    } else {
+        None
+    };
     let mut roots = root_args(c.roots);
     for e in &c.extra_roots {
         if cd.tree().join(e).exists() {
@@ -134,7 +179,38 @@ pub fn run_case(which: Which, c: &GCase, n: u64) -> Verdict {
         }
     }
     let fmt = if c.text { "default" } else { "json" };
-    let group = |cd: &CaseDir| if c.stdin { run_group_stdin(cd, &c.opts, &roots, fmt, &[]) } else { run_group(cd, &c.opts, &roots, fmt, &[]) };
+    // second root moved to the other file system (hard links into it become separate files: the
+    // reference reads the tree as it is on disk)
+    let mut other_fs_dir: Option<PathBuf> = None;
+    if c.split_fs && roots.len() >= 2 && c.roots >= 2 {
+        let src = cd.tree().join(&roots[1]);
+        let dst_base = PathBuf::from(format!("/var/tmp/fcvw/p{}/split{}", std::process::id(), n));
+        let _ = std::fs::create_dir_all(&dst_base);
+        let dst = dst_base.join("r_other");
+        let ok = std::process::Command::new("cp").arg("-a").arg(&src).arg(&dst).status().map(|s| s.success()).unwrap_or(false);
+        if ok && std::fs::remove_dir_all(&src).is_ok() {
+            roots[1] = dst.clone().into_os_string();
+            roots.retain(|r| r == &dst.clone().into_os_string() || cd.tree().join(r).exists());
+            other_fs_dir = Some(dst_base);
+        } else {
+            let _ = std::fs::remove_dir_all(&dst_base);
+        }
+    }
+    struct RmOnDrop(Option<PathBuf>);
+    impl Drop for RmOnDrop {
+        fn drop(&mut self) {
+            if let Some(p) = &self.0 {
+                let _ = std::fs::remove_dir_all(p);
+            }
+        }
+    }
+    let _rm_other = RmOnDrop(other_fs_dir.clone());
+    let envs: Vec<(String, String)> = if c.noatime_eperm && std::path::Path::new(SHIM).exists() {
+        vec![("LD_PRELOAD".into(), SHIM.into()), ("FCV_ROOT".into(), format!("{}:/var/tmp/fcvw", cd.tree().display())), ("FCV_NOATIME_EPERM".into(), "1".into())]
+    } else {
+        vec![]
+    };
+    let group = |cd: &CaseDir| run_group_env(cd, &c.opts, &roots, fmt, &[], c.stdin, &envs);
     let mut run = group(&cd);
     let mut runs = 1;
     if c.opts.cache && run.out.ok() {
@@ -270,6 +346,15 @@ pub fn run_case(which: Which, c: &GCase, n: u64) -> Verdict {
             if c.ext4 {
                 classes.push("ext4".into());
             }
+            if twin_pairs > 0 {
+                classes.push("twin-file-systems-equal-inode-numbers".into());
+            }
+            if other_fs_dir.is_some() {
+                classes.push("roots-on-two-file-systems-of-different-kind".into());
+            }
+            if !envs.is_empty() {
+                classes.push("o-noatime-refused".into());
+            }
             Verdict::Pass { nontrivial: near && any_multi_inode_group, classes }
         }
         Which::C03 => {
@@ -332,6 +417,15 @@ pub fn run_case(which: Which, c: &GCase, n: u64) -> Verdict {
             if expected.len() >= 2 {
                 classes.push("two-or-more-expected-groups".into());
             }
+            if twin_pairs > 0 {
+                classes.push("twin-file-systems-equal-inode-numbers".into());
+            }
+            if other_fs_dir.is_some() {
+                classes.push("roots-on-two-file-systems-of-different-kind".into());
+            }
+            if !envs.is_empty() {
+                classes.push("o-noatime-refused".into());
+            }
             Verdict::Pass { nontrivial, classes }
         }
     }
@@ -350,12 +444,12 @@ pub fn check(which: Which, tier: Tier) -> i32 {
     match which {
         Which::C01 => ctx.finish(
             "exploration",
-            "proptest-generated trees (content palette + near-duplicate pairs differing in one byte at stage-boundary offsets, sizes from the boundary set 0..200000, hard links, symlinks) x group configurations (7 hash fns, cache cold+warm, shrinking/keeping/expanding transforms in 5 I/O modes, max-prefix/suffix sizes, pinned ssd/hdd/unknown, thread specs, -H/-S/-L, --rf-over 0..3 / --rf-under / --unique, --min 0); oracle: every listed path is read back by the harness, (transformed) length must equal the printed group length and all members must be byte-identical. Non-trivial = the scanned set contains two equal-length files with different bytes AND the report contains a group with >=2 distinct inodes; distinct by case digest.",
+            "proptest-generated trees (content palette + near-duplicate pairs differing in one byte at stage-boundary offsets, sizes from the boundary set 0..200000, hard links, symlinks; in a tenth of the cases two freshly mounted tmpfs file systems below the first root hold pairs of files with equal inode numbers, equal lengths and different bytes) x group configurations (7 hash fns, cache cold+warm, shrinking/keeping/expanding transforms in 5 I/O modes, max-prefix/suffix sizes, pinned ssd/hdd/unknown, thread specs, -H/-S/-L, --rf-over 0..3 / --rf-under / --unique, --min 0); oracle: every listed path is read back by the harness, (transformed) length must equal the printed group length and all members must be byte-identical. Non-trivial = the scanned set contains two equal-length files with different bytes AND the report contains a group with >=2 distinct inodes; distinct by case digest.",
             &["transform helper programs are deterministic pure functions (fcv-tr, cat, tr, head, dd); their outputs are computed natively by the harness", "--skip-content-hash is never generated (explicit exception in the statement)"],
         ),
         Which::C03 => ctx.finish(
             "exploration",
-            "proptest-generated trees (2-5 palette contents shared by 5-18 files over 1-3 roots, nested dirs, hard links, overlapping/repeated roots, given as arguments or - one case in five - through --stdin) x configurations (rf-over 0..3, rf-under 1..4, unique, transform, cache, hash fn, prefix/suffix sizes, pinned device, thread specs); oracle: reference content partition of the reference selection + documented replica rule, compared as a set of path-sets with lengths (nothing missing, split, merged, duplicated or unselected). Non-trivial = >=2 expected groups AND a reported class with members in >=2 directories whose size >= prefix length in force AND >=1 class that must not be reported.",
+            "proptest-generated trees (2-5 palette contents shared by 5-18 files over 1-3 roots, nested dirs, hard links, twin tmpfs file systems with equal inode numbers in a tenth of the cases, overlapping/repeated roots, given as arguments or - one case in five - through --stdin) ; in 15 % of the multi-root cases the second root is moved to ext4 below /var/tmp while the first stays on tmpfs (devices of different detected kinds, disk kind not pinned); in 10 % every open with O_NOATIME is refused with EPERM by the interposer (a user who does not own the files) x configurations (rf-over 0..3, rf-under 1..4, unique, transform, cache, hash fn, prefix/suffix sizes, pinned device, thread specs); oracle: reference content partition of the reference selection + documented replica rule, compared as a set of path-sets with lengths (nothing missing, split, merged, duplicated or unselected). Non-trivial = >=2 expected groups AND a reported class with members in >=2 directories whose size >= prefix length in force AND >=1 class that must not be reported.",
             &["plain name profile: no hidden names, no ignore files (selection subtleties are C09's)", "replica counting uses the simple rule (no -H, no --isolate) here; C06 covers the rest"],
         ),
     }
